@@ -1002,7 +1002,9 @@ pub fn execute(case: &str) -> String {
 /// a dotted name that looks like a nested one) are frequent.
 const IDENTS: [&str; 14] = ["A", "B", "C", "a", "b", "Ab", "A.B", "p", "q", "", "é", "名", "A_", "a.b"];
 const PKGS: [&str; 9] = ["", "p", "p.q", "A", "a.b", "q", "p.q.r", "é", "A.B"];
-const FILES: [&str; 7] = ["a.proto", "b.proto", "dir/a.proto", "", "A", "c.proto", "reflection_v1.proto"];
+// (`dep<k>.proto` is what a file with `extra = k` imports: registered files that import each other,
+// seed C19j)
+const FILES: [&str; 10] = ["a.proto", "b.proto", "dir/a.proto", "", "A", "c.proto", "reflection_v1.proto", "dep1.proto", "dep2.proto", "dep3.proto"];
 
 /// Path-shaped file names: spellings that a "helpful" lookup might identify with each other
 /// (`./x`, `/x`, `x/`, doubled separators, `..`, case, trailing NUL / space, percent-escapes,
@@ -1586,6 +1588,14 @@ fn corpus(rng: &mut Rng) -> Vec<String> {
     let g2 = fl("y.proto", Some("p"), 0, vec![m("M", vec![], vec![], &["g"], &[])], vec![], vec![sv("S", &["n"])]);
     out.push(finish("corpus", rng, false, None, vec![Reg::S(vec![g1.clone(), g2.clone()])], true));
     out.push(finish("corpus", rng, false, None, vec![Reg::E(vec![g1.clone()]), Reg::S(vec![g2.clone()])], true));
+    // 5b. registered files that import each other: a chain top -> dep1.proto -> dep2.proto, and an
+    // import of a file that is not registered; each query is answered with its own file alone
+    let i0 = fl("top.proto", Some("imp"), 1, vec![m("Top", vec![], vec![], &["f"], &[])], vec![], vec![sv("TopSvc", &["Get"])]);
+    let i1 = fl("dep1.proto", Some("imp.d1"), 2, vec![m("Mid", vec![], vec![], &["g"], &[])], vec![], vec![]);
+    let i2 = fl("dep2.proto", Some("imp.d2"), 0, vec![m("Leaf", vec![], vec![], &["h"], &[])], vec![en("LeafEnum", &["X"])], vec![]);
+    out.push(finish("corpus", rng, false, None, vec![Reg::S(vec![i0.clone(), i1.clone(), i2.clone()])], true));
+    out.push(finish("corpus", rng, false, None, vec![Reg::S(vec![i2.clone(), i1.clone(), i0.clone()])], true));
+    out.push(finish("corpus", rng, false, None, vec![Reg::E(vec![i0.clone()]), Reg::S(vec![i1.clone()])], true));
     // 6. dotted names that collide with nesting: message "A.B" vs message A { message B }
     let h1 = fl("h1.proto", None, 0, vec![m("A.B", vec![], vec![], &["f"], &[])], vec![], vec![]);
     let h2 = fl("h2.proto", Some("A"), 0, vec![m("B", vec![], vec![], &["g"], &[])], vec![], vec![]);
